@@ -125,7 +125,10 @@ pub fn nest_jar<A>(remap_option: bool, src: &impl Jar, nests: Nests<A>) -> Resul
 		let entry_attr = BasicFileAttributes::default();
 
 		let (name, class_node) = if remap_option {
-			let name = dukebox::remap::remap_jar_entry_name_java(&new_class_name, &remapper)?
+			// The entry name of a class is the class name with the `.class` suffix.
+			let mut entry_name = new_class_name.to_owned();
+			entry_name.push_str(".class");
+			let name = dukebox::remap::remap_jar_entry_name_java(&entry_name, &remapper)?
 				.into_string().unwrap(); // TODO: unwrap
 			let class_node = do_nested_class_attribute_class_visitor(&this_nests, new_class);
 			let class_node = dukebox::remap::remap_class(&remapper, class_node)?;
